@@ -5,7 +5,10 @@ Cases: command trees from harness/app_common.gen_tree, EXTENDED here with 0-3 ar
 options of every flag kind (flag / required / optional / multi-valued, preferred long or short name,
 with and without short name), descriptions absent / short / several lines long, defaults of every
 type, command descriptions and help texts; an application built on the DEFAULT application
-configuration (`help` command, global options, `-h/--help` listener); a terminal width; ANSI or plain.
+configuration (`help` command, global options, `-h/--help` listener); a terminal width; ANSI or plain;
+the OUTER INDENTATION the pages are rendered at - the public optional parameter of
+`Component.render(io, indentation)` (0 for half of the cases, 1..8 for the others: a help page nested under
+a heading of the caller's own).
 
 Implementation side: `ApplicationHelp(app).render(io)` and `CommandHelp(cmd).render(io)` for every
 command of the tree (direct page comparison with the Lean model, ANSI codes stripped), and
@@ -26,6 +29,7 @@ DESIGN_REF = "6/C13"
 LEAN_MODULES = ["Clikit.Props.C13"]
 REQUIRED_THEOREMS = ["Clikit.Props.C13." + n for n in (
     "help_total", "help_complete", "help_names", "help_inherits", "help_hides", "help_width", "help_width_pages",
+    "help_indent_zero", "help_total_indented", "help_width_indented", "help_width_pages_indented",
     "help_wrap_contract", "help_same_page", "help_same_page_partial", "help_same_page_facts", "help_same_page_default",
     "help_same_page_wired", "help_same_page_wired_decides", "dApp_same_page")]
 TECHNIQUE = ("Lean 4 theorems on a model of ApplicationHelp / CommandHelp / BlockLayout / LabelAlignment / "
@@ -39,7 +43,11 @@ LEVEL_TEXT = ("Proved in Lean for EVERY configuration tree, terminal width and w
               "inherited and global option (label shows the preferred and the alternative name) and every non-hidden, enabled, "
               "named (sub-)command is an element of the page; the command entries of a page are exactly the visible ones (no "
               "hidden, disabled or anonymous command); every rendered line is shorter than the terminal (and on a narrower "
-              "terminal than widthOK allows rendering does fail: the margin is exact); `help <path>` and `<path> --help|-h` "
+              "terminal than widthOK allows rendering does fail: the margin is exact); the same for a page rendered with the "
+              "optional parameter render(io, indentation=k), whose elements and alignment offset are shifted by k "
+              "(help_total_indented under widthOKAt = outer indentation + longest label + offset + 2, help_width_indented: "
+              "every line, the outer indentation included, is shorter than the terminal; help_indent_zero: k = 0 is the "
+              "plain rendering); `help <path>` and `<path> --help|-h` "
               "hand the resolver the same leading names, so it walks to the same command (help_same_page, unconditional); and the "
               "PAGE SHOWN IS THE SAME, or both fail with the same error (help_same_page_default: helpTarget(help <path>) = "
               "helpTarget(<path> --help|-h)), with NO hypothesis about what the parser returns - only about the shape of the "
@@ -71,9 +79,10 @@ LEVEL_NOTE = ("Trusted: Lean kernel + standard axioms; the hand-written page/lay
 RULE = ("gen_tree configurations (depth<=3, fan-out<=3, aliases, default/anonymous/hidden/disabled) extended with 0-3 "
         "arguments / 0-3 options of every kind, descriptions absent/short/long, defaults of every type, help texts; on the "
         "default application config; x widths (quick: 6 per configuration from 40..200 plus narrow ones around the minimum; "
-        "thorough: more) x ANSI/plain; per case: application page, every command page, 3 spellings of help for up to 3 "
+        "thorough: more) x ANSI/plain x outer indentation of the direct renderings (render(io, indentation): 0 for "
+        "half of the cases, else one of 1, 2, 3, 4, 6, 8; the minimum width the statement speaks of grows by it); per case: application page, every command page, 3 spellings of help for up to 3 "
         "paths; non-trivial = the configuration has at least one command with an argument or option; distinct = (configuration, "
-        "width, ansi)")
+        "width, ansi, indentation)")
 TRUSTED_BASE = [
     "Lean 4.33 kernel; axioms within propext, Classical.choice, Quot.sound (audited per theorem on every run)",
     "lean/Clikit/Model/Help.lean, Model/HelpWrap.lean, Model/Wrap.lean, Model/Resolver.lean, Model/Parser.lean: hand-written models (modelled, not verified; tied by the correspondence)",
@@ -84,12 +93,15 @@ ASSUMPTIONS = [
     "descriptions / help texts contain no '<', '>', '\\\\', braces or tabs; hyphenated words are shorter than every wrap width used",
     "argument and command names are not style-tag names (an argument named `b` or `info` is swallowed by the formatter - see report)",
     "sibling commands have distinct names; no global arguments; `set_description(None)` on a command is outside (its type is str)",
+    "the outer indentation is the non-negative integer the parameter of Component.render is documented as (0..8 generated); it applies to the direct renderings - the runs of `help <path>` / `<path> --help` pass none",
     "the path of `help <path>` names commands of the generated tree (`help help` shows the page of `help`, `help --help` the application page)",
 ]
 BATCH = 300
 BUDGET_S = {"quick": 80, "thorough": 800}
 
 ANSI_RE = re.compile(r"\x1b\[[0-9;]*m")
+# outer indentation of the direct renderings (the runs of `help ...` never pass one)
+INDENTS = [0, 0, 0, 0, 0, 0, 1, 2, 3, 4, 6, 8]
 
 OPT_POOL = [[("force", "f"), ("level", "l"), ("pattern", "p")],
             [("bar", "b"), ("count", "c"), ("dryrun", "d")],
@@ -238,7 +250,11 @@ def generate(tier, rng):
         else:
             widths = [40, 200, rng.randint(26, 39)] + [rng.randint(41, 199) for _ in range(7)]
         for w in widths:
-            yield {"config": cfg, "width": w, "ansi": rng.random() < 0.5, "paths": paths}
+            ansi = rng.random() < 0.5
+            # the pages are also rendered the way a caller nests them under something of its own:
+            # `ApplicationHelp(app).render(io, indentation)` / `CommandHelp(cmd).render(io, indentation)`
+            indent = rng.choice(INDENTS)
+            yield {"config": cfg, "width": w, "ansi": ansi, "paths": paths, "indent": indent}
 
 
 def exhaustive(tier):
@@ -413,7 +429,7 @@ def _layout_of(help_component):
     return need, labels
 
 
-def _render(component, width, ansi, style_set):
+def _render(component, width, ansi, style_set, indent=0):
     import textwrap
     from clikit.formatter import AnsiFormatter, PlainFormatter
     from clikit.io.buffered_io import BufferedIO
@@ -429,7 +445,10 @@ def _render(component, width, ansi, style_set):
     textwrap.wrap = rec
     try:
         try:
-            component.render(io)
+            if indent:
+                component.render(io, indent)         # the public optional parameter of Component.render
+            else:
+                component.render(io)
             res = {"ok": ANSI_RE.sub("", io.fetch_output())}
         except Exception as e:  # noqa
             res = {"err": type(e).__name__}
@@ -438,6 +457,8 @@ def _render(component, width, ansi, style_set):
     res["outside"] = any(isinstance(t, str) and w >= 1 and _outside(t, w) for (t, w) in calls)
     try:
         res["min_width"], res["labels"] = _layout_of(component)
+        # the longest label plus its margin stands `indent` columns further right
+        res["min_width"] += indent
     except Exception as e:  # noqa
         res["min_width"], res["labels"] = None, []
         res["layout_err"] = type(e).__name__
@@ -474,9 +495,10 @@ def run_impl(case):
     app = build_app(case["config"])
     w, ansi = case["width"], case["ansi"]
     ss = app.config.style_set
-    obs = {"app": _render(ApplicationHelp(app), w, ansi, ss), "cmds": [], "runs": []}
+    k = case.get("indent", 0)
+    obs = {"app": _render(ApplicationHelp(app), w, ansi, ss, k), "cmds": [], "runs": []}
     for c in all_commands(app):
-        obs["cmds"].append([ac.path_of(c), _render(CommandHelp(c), w, ansi, ss)])
+        obs["cmds"].append([ac.path_of(c), _render(CommandHelp(c), w, ansi, ss, k)])
     for toks in _lines_of(case):
         obs["runs"].append([toks, _run(app, toks, w)])
     return obs
@@ -510,7 +532,8 @@ def model_requests(case):
     ints, floats = pc.conv_tables(tx)
     # every case is built on DefaultApplicationConfig (build_app): the model also DECIDES, on the tree read from
     # the real objects, the structural hypotheses of help_same_page_default / help_same_page_wired (c13.wired)
-    return [{"m": "c13.all", "app": nodes, "width": case["width"], "paths": paths, "lines": lines,
+    return [{"m": "c13.all", "app": nodes, "width": case["width"], "indent": case.get("indent", 0), "paths": paths,
+             "lines": lines,
              "ints": ints, "floats": floats},
             {"m": "c13.wired", "app": nodes}]
 
@@ -560,7 +583,11 @@ def model_obs(case, answers):
             if "err" in pg:
                 out["runs"].append({"fails": True})
                 continue
-            outside = app_out if tg == "app" else cmd_v[paths.index(tg["cmd"])][1]
+            if "wraps" in t["ok"]:
+                # the direct renderings were made at another indentation: the run's own wrap calls decide
+                outside = any(w >= 1 and _outside(tx, w) for (w, tx) in t["ok"]["wraps"])
+            else:
+                outside = app_out if tg == "app" else cmd_v[paths.index(tg["cmd"])][1]
             out["runs"].append({"outside": True} if outside else {"ok": pg["ok"]})
     return out
 
@@ -627,8 +654,9 @@ def _find(tree_cmds, path):
     return nodes
 
 
-def _check_page(kind, res, width, expect):
-    """expect: {"commands": [names] | None, "cmd_title":…, "args": [...], "own": [opts], "inherited": [opts]}"""
+def _check_page(kind, res, width, expect, indent=0):
+    """indent: the outer indentation the page was rendered at (already part of res["min_width"]);
+    expect: {"commands": [names] | None, "cmd_title":…, "args": [...], "own": [opts], "inherited": [opts]}"""
     if res.get("min_width") is None:
         return "%s: the layout could not be built (%s)" % (kind, res.get("layout_err"))
     if width < res["min_width"]:
@@ -638,7 +666,12 @@ def _check_page(kind, res, width, expect):
     lines = res["ok"].split("\n")
     for l in lines:
         if len(l) > width:
-            return "%s: line of %d columns on a terminal of %d: %r" % (kind, len(l), width, l[:80])
+            return "%s: line of %d columns on a terminal of %d%s: %r" % (
+                kind, len(l), width, " (page rendered at indentation %d)" % indent if indent else "", l[:80])
+    if indent:
+        # what the page lists is read relative to the outer indentation
+        pre = " " * indent
+        lines = [l[indent:] if l.startswith(pre) else l for l in lines]
     # commands
     if expect["commands"] is not None:
         got = _labels_in_block(lines, expect["cmd_title"], 2)
@@ -660,11 +693,12 @@ def _check_page(kind, res, width, expect):
 def oracle(case, obs):
     tree = case["config"]["tree"]
     w = case["width"]
+    k = case.get("indent", 0)
     top = ac.enabled(tree["commands"])
     gopts = GLOBALS + ([{"long": "gflag", "short": "g"}] if tree.get("global_flag") else [])
     v = _check_page("application help", obs["app"], w, {
         "commands": ["help"] + [c["name"] for c in top if not c["anonymous"] and not c["hidden"]],
-        "cmd_title": "AVAILABLE COMMANDS", "args": ["command", "arg"], "own": [], "inherited": gopts})
+        "cmd_title": "AVAILABLE COMMANDS", "args": ["command", "arg"], "own": [], "inherited": gopts}, k)
     if v:
         return v
     for (path, res) in obs["cmds"]:
@@ -678,7 +712,7 @@ def oracle(case, obs):
         v = _check_page("help of " + " ".join(path), res, w, {
             "commands": [s["name"] for s in ac.enabled(c["subs"]) if not s["anonymous"] and not s["hidden"]],
             "cmd_title": "COMMANDS", "args": [a["name"] for n in nodes for a in n["args"]],
-            "own": c["opts"], "inherited": inherited})
+            "own": c["opts"], "inherited": inherited}, k)
         if v:
             return v
     if any(w < r["min_width"] for (_, r) in obs["cmds"]) or w < obs["app"]["min_width"]:
@@ -736,7 +770,7 @@ def nontrivial_key(case, obs):
     def has(c):
         return bool(c["args"] or c["opts"]) or any(has(s) for s in c["subs"])
     if any(has(c) for c in case["config"]["tree"]["commands"]):
-        return json.dumps([case["config"], case["width"], case["ansi"]], sort_keys=True)
+        return json.dumps([case["config"], case["width"], case["ansi"], case.get("indent", 0)], sort_keys=True)
     return None
 
 
@@ -744,7 +778,9 @@ def bucket(case, obs):
     w = case["width"]
     wb = "<40" if w < 40 else ("40-79" if w < 80 else ("80-119" if w < 120 else "120-200"))
     ok = "ok" if "ok" in obs["app"] and all("ok" in r for (_, r) in obs["cmds"]) else "too-narrow"
-    return "w=%s|%s|cmds=%d|%s" % (wb, "ansi" if case["ansi"] else "plain", min(len(obs["cmds"]), 12) // 4 * 4, ok)
+    k = case.get("indent", 0)
+    return "w=%s|%s|cmds=%d|%s|%s" % (wb, "ansi" if case["ansi"] else "plain", min(len(obs["cmds"]), 12) // 4 * 4, ok,
+                                     "indent=" + ("0" if k == 0 else ("1" if k == 1 else "2+")))
 
 
 # ----------------------------------------------------------------------------- shrinking / neighbours
@@ -818,6 +854,11 @@ def shrink(case):
         c = json.loads(json.dumps(case))
         c["ansi"] = False
         yield c
+    for k in sorted({0, 2, case.get("indent", 0) - 1}):
+        if 0 <= k < case.get("indent", 0):
+            c = json.loads(json.dumps(case))
+            c["indent"] = k
+            yield c
 
 
 def neighbours(case):
@@ -830,6 +871,11 @@ def neighbours(case):
     c = json.loads(json.dumps(case))
     c["ansi"] = not case["ansi"]
     yield c
+    for k in (0, 1, 2, 4, 8):
+        if k != case.get("indent", 0):
+            c = json.loads(json.dumps(case))
+            c["indent"] = k
+            yield c
 
     def flips(cmds, path):
         for i, x in enumerate(cmds):
